@@ -37,6 +37,7 @@ import (
 	"path/filepath"
 	"regexp"
 	"runtime"
+	"strconv"
 	"strings"
 	"sync"
 	"syscall"
@@ -92,7 +93,7 @@ type Case struct {
 	// Others: private regions for the relation ops (each goroutine builds its
 	// own copy): a vertex list for kind loop, nested rings for kind polygon.
 	Others [][][]gen.P
-	Init   string // stale | built
+	Init   string // stale | built | restale (index only: built, then more shapes added)
 	G      []Worker
 	Sched  []int
 }
@@ -210,6 +211,12 @@ func genOp(t *rapid.T, c *Case, verts []gen.P, scale float64) Op {
 
 func genCase(mode string) func(t *rapid.T) Case {
 	return func(t *rapid.T) Case {
+		// rapid derives the seed of test i as base+i(i+1)/2 and the driver gives
+		// shard k the base 1+1000*VERIF_SEED+k, so neighbouring shards would repeat
+		// each other's early cases; shard k therefore first discards k draws.
+		for i := 0; i < shardNo; i++ {
+			rapid.Uint64().Draw(t, "shard-skip")
+		}
 		c := Case{Mode: mode}
 		maxN := 160
 		if ev.Thorough() && rapid.IntRange(0, 9).Draw(t, "big") == 0 {
@@ -218,7 +225,8 @@ func genCase(mode string) func(t *rapid.T) Case {
 		if mode == "exh" {
 			maxN = 70
 		}
-		c.Kind = rapid.SampledFrom([]string{"loop", "loop", "loop", "polygon", "polygon", "index", "index", "index"}).Draw(t, "kind")
+		kinds := []string{"loop", "polygon", "index", "loop", "index", "polygon", "loop", "index"}
+		c.Kind = kinds[(rapid.IntRange(0, len(kinds)-1).Draw(t, "kind")+shardNo)%len(kinds)]
 		scale := 1.0
 		switch c.Kind {
 		case "loop":
@@ -253,14 +261,20 @@ func genCase(mode string) func(t *rapid.T) Case {
 			scale = math.Min(1, scaleOf(v[0].Pt(), v)+1e-9)
 		}
 		verts := flatten(&c)
-		c.Init = rapid.SampledFrom([]string{"stale", "stale", "stale", "stale", "stale", "built"}).Draw(t, "init")
+		inits := []string{"stale", "stale", "stale", "stale", "stale", "built"}
+		if c.Kind == "index" && len(c.Shapes) >= 2 {
+			inits = append(inits, "restale", "restale")
+		}
+		c.Init = rapid.SampledFrom(inits).Draw(t, "init")
 		ng, maxOps := rapid.IntRange(2, 8).Draw(t, "ng"), 5
 		switch mode {
 		case "ctl":
 			ng = rapid.IntRange(2, 4).Draw(t, "ngc")
 		case "exh":
 			ng, maxOps = 2, 2
-			c.Init = "stale"
+			if c.Init == "built" {
+				c.Init = "stale"
+			}
 		}
 		for g := 0; g < ng; g++ {
 			w := Worker{}
@@ -284,6 +298,14 @@ func genCase(mode string) func(t *rapid.T) Case {
 		return c
 	}
 }
+
+var shardNo = func() int {
+	n, _ := strconv.Atoi(os.Getenv("VERIF_SHARD"))
+	if n < 0 || n > 64 {
+		n = 0
+	}
+	return n
+}()
 
 func maxInt(a, b int) int {
 	if a > b {
@@ -535,11 +557,8 @@ func died(c Case, code int, text string, timedOut bool) ev.Outcome {
 		o.Err = fmt.Sprintf("no result within %v (hang)\n%s\nhistory: %s", caseTimeout, clip(text, 6000), history(c))
 	case strings.Contains(text, "fatal error:"):
 		i := strings.Index(text, "fatal error:")
-		o.Finding = "fatal-error"
-		if strings.Contains(text[i:], "concurrent map") {
-			o.Finding = "fatal-concurrent-map"
-		}
-		o.Err = fmt.Sprintf("child died with a runtime fatal error (exit %d)\n%s\nhistory: %s", code, clip(text[i:], 3000), history(c))
+		o.Finding = classifyFatal(text[i:])
+		o.Err = fmt.Sprintf("child died with a runtime fatal error (exit %d) [%s]\n%s\nhistory: %s", code, o.Finding, clip(text[i:], 3000), history(c))
 	default:
 		o.Finding = "child-died"
 		o.Err = fmt.Sprintf("child exit %d without a result\n%s\nhistory: %s", code, clip(text, 3000), history(c))
@@ -594,6 +613,32 @@ func classifyRace(rep string) string {
 	return "race-other"
 }
 
+// classifyFatal labels a runtime "fatal error" (the Go runtime's own detection
+// of concurrent map access aborts the process) by the same mechanism classes as
+// a race report: the goroutine that threw is the first one printed.
+func classifyFatal(rest string) string {
+	if !strings.Contains(rest, "concurrent map") {
+		return "fatal-error"
+	}
+	first := rest
+	if j := strings.Index(rest, "\ngoroutine "); j >= 0 {
+		first = rest[j+1:]
+		if k := strings.Index(first, "\n\n"); k >= 0 {
+			first = first[:k]
+		}
+	}
+	others := strings.Replace(rest, first, "", 1)
+	switch {
+	case strings.Contains(first, "applyUpdatesInternal") && strings.Contains(others, "applyUpdatesInternal"):
+		return "race-two-builders"
+	case strings.Contains(first, "applyUpdatesInternal") || !strings.Contains(others, "applyUpdatesInternal"):
+		return "fatal-concurrent-map"
+	case strings.Contains(first, "(*EdgeQuery).initQueue") && !strings.Contains(first, "initCovering"):
+		return "race-edgequery-unbuilt-iterator"
+	}
+	return "race-rebuild-vs-reader"
+}
+
 func history(c Case) string {
 	var sb strings.Builder
 	fmt.Fprintf(&sb, "%s/%s/%s", c.Mode, c.Kind, c.Init)
@@ -612,17 +657,17 @@ func history(c Case) string {
 
 func init() {
 	ev.Define("race_free", ev.Options{
-		Rule: "shared Loop / Polygon (nested rings) / ShapeIndex (1-5 mixed shapes), index not built (5/6) or built (1/6); 2-8 goroutines x 1-5 drawn read-only queries with private query objects, " +
+		Rule: "shared Loop / Polygon (nested rings) / ShapeIndex (1-5 mixed shapes), index not built, built (1/6..1/8), or (ShapeIndex) built and then extended so that the queries trigger a rebuild; 2-8 goroutines x 1-5 drawn read-only queries with private query objects, " +
 			"released by one barrier, drawn spin/yield delays at the hook points, 3 repetitions in a -race child process; non-trivial when at least 2 goroutines found the index stale (reached index.beforeLock) in one repetition, or the child was killed by a race report",
-		Quick: 360, Thorough: 16000, Journal: true,
+		Quick: 360, Thorough: 12000, Journal: true,
 	}, genCase("free"), viaChild("race_free", checkInProc))
 	ev.Define("ctl_sampled", ev.Options{
 		Rule: "same objects and queries, 2-4 goroutines serialised by a token scheduler installed through VerifHook (one goroutine runs between two hook points; a goroutine blocked on the index mutex is recognised by its wait state and another one is released); " +
 			"schedule drawn by rapid (0-80 choices, then run-to-completion); non-trivial when 2 goroutines found the index stale or a goroutine passed index.beforeStatusCheck while another was between lock and unlock",
-		Quick: 480, Thorough: 20000, Journal: true,
+		Quick: 480, Thorough: 16000, Journal: true,
 	}, genCase("ctl"), viaChild("ctl_sampled", checkInProc))
 	ev.Define("ctl_exhaustive", ev.Options{
-		Rule: "2 goroutines x 1-2 queries on a stale object (<= 70 vertices): ALL schedules over the hook points are executed by depth-first enumeration (cap 400 schedules or 8 s quick / 2500 or 25 s thorough per case; Counts report exhausted vs capped); non-trivial when some schedule had both goroutines find the index stale",
-		Quick: 64, Thorough: 1600, Journal: true,
+		Rule:  "2 goroutines x 1-2 queries on a stale object (<= 70 vertices): ALL schedules over the hook points (status check, lock, mid-build before faces 0 and 3, status store, unlock) are executed by depth-first enumeration (cap 500 schedules or 8 s quick / 2500 or 20 s thorough per case; Counts report exhausted vs capped); non-trivial when some schedule had both goroutines find the index stale",
+		Quick: 64, Thorough: 400, Journal: true,
 	}, genCase("exh"), viaChild("ctl_exhaustive", checkInProc))
 }
